@@ -71,6 +71,19 @@ func (e *Exec) reset() {
 	e.checkOverflow = e.Con != nil && e.Con.Overflow
 }
 
+// bindFailure: a clause of the contract cannot be evaluated against the function as it is now (a name it mentions
+// no longer exists, a type changed). The code moved away from its contract: that is a failed obligation
+// ("contract.bind"), reported like any other, not an internal error. On the unchanged tree it would show as a
+// violation at once, so a mistake in a contract file cannot hide behind it.
+func bindFailure(res *FuncResult, fn *ssa.Function, prop, msg string) {
+	vc := &VC{declared: map[string]bool{}}
+	o := &Obligation{Name: FuncKey(fn) + "#contract.bind", Func: FuncKey(fn), Class: "contract.bind", Clause: "the contract no longer binds to the function: " + msg,
+		prefix: 0, goal: "false", reach: "true", vc: vc}
+	vc.obls = []*Obligation{o}
+	res.VC = vc
+	res.Err = ""
+}
+
 // verifyFunction generates the VC of one function under its contract.
 func verifyFunction(p *Program, cs *Contracts, fn *ssa.Function, con *Contract, prop string) (res *FuncResult) {
 	res = &FuncResult{Key: FuncKey(fn)}
@@ -80,9 +93,9 @@ func verifyFunction(p *Program, cs *Contracts, fn *ssa.Function, con *Contract, 
 			case unsupported:
 				res.Err = "UNSUPPORTED: " + x.msg
 			case contractError:
-				res.Err = "CONTRACT: " + x.msg
+				bindFailure(res, fn, prop, x.msg)
 			case specError:
-				res.Err = "CONTRACT: " + x.msg
+				bindFailure(res, fn, prop, x.msg)
 			case missingContract:
 				res.Err = fmt.Sprintf("MISSING-CONTRACT: %s (called from %s)", x.key, x.from)
 			default:
